@@ -388,7 +388,7 @@ pub fn run(tier: Tier, seed: u64, replay: Option<&std::path::Path>) -> i32 {
         }
     }
     let cases = match tier {
-        Tier::Quick => 1200,
+        Tier::Quick => 2400,
         Tier::Thorough => 12_000,
     };
     let out = run_sharded("C20", seed, cases, 300, strategy, run_case);
